@@ -148,7 +148,7 @@ def _on_alarm(signum, frame):
     raise CaseTimeout()
 
 
-CASE_TIMEOUT_S = 8.0  # CPU seconds of this process (ITIMER_VIRTUAL): independent of machine load; a case needs ~3 ms
+CASE_TIMEOUT_S = 20.0  # CPU seconds of this process (ITIMER_VIRTUAL): independent of machine load; a case needs ~3 ms
 
 
 def impl_run(case):
@@ -950,8 +950,12 @@ def run(rep, tier):
     if len(allcases) < 4000:
         impl = [impl_run(c) for c in allcases]
     else:
+        import gc
+
+        gc.freeze()  # the case list is large: keep the workers' collector from traversing it
         with Pool(min(16, os.cpu_count() or 4)) as pool:
             impl = pool.map(impl_run, allcases, chunksize=256)
+        gc.unfreeze()
     model_res = None
     if exe is not None:
         res = Model(exe).parallel_batch([("c07_run", enc_case(c)) for c in allcases])
